@@ -75,6 +75,14 @@ def spellings(rng, v):
     raise ValueError(v)
 
 
+def locked_spelling(rng, v):
+    """an element the user keeps control of: `Is(v)` or an f-string.  No category may alter its text (C10); for the
+    model it is a leaf whose tokens never need an update (canon = True).  4th field: marker for the oracle."""
+    if isinstance(v, str) and rng.random() < 0.5:
+        return ('f"{%r}"' % v, True, "locked")
+    return ("Is(%r)" % (v,), True, "locked")
+
+
 def rand_val(rng, family):
     if family == "set":
         return frozenset(e for e in range(3) if rng.random() < 0.45)
@@ -118,7 +126,7 @@ def gen(rng, tier, shape=None):
                     v = rand_val(rng, family)
                     if not any(v == w for w in vals):
                         vals.append(v)
-                s["old"] = ["coll", [(v,) + spellings(rng, v) for v in vals]]
+                s["old"] = ["coll", [(v,) + (locked_spelling(rng, v) if rng.random() < 0.15 else spellings(rng, v)) for v in vals]]
                 if rng.random() < 0.15:
                     s["old"].append("tuple")        # `x in snapshot((1, 2))`: a tuple display is edited like a list display
         elif role == "dict":
@@ -240,7 +248,7 @@ def old_sx(old):
 
 
 PRELUDE = """\
-from inline_snapshot import snapshot
+from inline_snapshot import snapshot, Is
 import copy
 R = []
 class NC_:
@@ -386,7 +394,7 @@ def model_lines(case):
 def py_final(node_src):
     if node_src is None:
         return "noarg"
-    v = eval(node_src, {})
+    v = eval(node_src, {"Is": lambda x: x})      # Is(v) compares like v
     return final_sx(v)
 
 
@@ -734,6 +742,26 @@ def oracle(case, obs):
                 if lost:
                     fails.append(("C05", "trim_keeps_accessed_keys", f"site {k}: accessed keys {lost} were removed by trim: {fin}"))
 
+    # ---- C10: user-controlled elements of a collection (`Is(..)`, f-strings) keep their text, whatever is approved;
+    #      they may only disappear with their element (trim of a member that was never tested)
+    if not (obs["collect_errors"] or obs["apply_error"]) and obs.get("after"):
+        try:
+            from .. import impl_inline
+            args_after = [a for (_l, _c, a, _n) in impl_inline.snapshot_args(obs["after"])]
+        except SyntaxError:
+            args_after = None
+        if args_after is not None:
+            for k, site in enumerate(sites):
+                if not site["old"] or site["old"][0] != "coll" or k >= len(args_after):
+                    continue
+                tested = [ev[4] for evs_ in case["tests"] for ev in evs_ if ev[0] == "op" and ev[1] == k and ev[3] == "in"]
+                for e in site["old"][1]:
+                    if len(e) > 3 and e[3] == "locked":
+                        kept = (args_after[k] or "").replace(" ", "")
+                        may_vanish = "trim" in approved and not any(x == e[0] for x in tested if not isinstance(x, tuple))
+                        if e[1].replace(" ", "") not in kept and not may_vanish:
+                            fails.append(("C10", "unmanaged_untouched", f"site {k}: user-controlled element {e[1]} of snapshot({arg_src(site['old'])}) was altered: "
+                                          f"{args_after[k]!r} (approved {sorted(approved)}, tested {tested!r})"))
     # ---- C18: collecting and applying the changes finishes without an internal error
     if obs["collect_errors"] or obs["apply_error"]:
         fails.append(("C18", "finish_total", f"flags {sorted(flags)} approved {sorted(approved)}: collect {obs['collect_errors']} apply {obs['apply_error']}"))
